@@ -101,3 +101,25 @@ META["C13"] = {
             "only shrink and the progress measure must move lexicographically as documented, asserted at every step with the previous value in hand. Held on the histories explored.",
     "note": "Trusted: recorder bookkeeping; cases exceeding the wall-clock watchdog are counted inconclusive, never as violations.",
 }
+
+META["C06"] = {
+    "technique": "differential monitor: Extractor vs an own least-fix-point (Bellman-Ford) over eg.enodes, plus membership/cost/slot oracles per query",
+    "design_ref": "DESIGN.md §4 C06",
+    "text": "For every live class, renamed invocation and old handle of generated e-graphs and three strictly monotone cost functions, the extracted term must be represented in exactly "
+            "the queried invocation, its recomputed cost must equal the reported best cost, which must equal an independently computed minimum; result slots must be arguments or new. Held on the e-graphs explored.",
+    "note": "Trusted: own fix-point over eg.enodes (shares the e-node listing with the crate, nothing else); e-graphs are small (< ~150 nodes).",
+}
+META["C05"] = {
+    "technique": "result validation monitor: every returned substitution is re-instantiated with lookup only; purity checked by fingerprint before/after",
+    "design_ref": "DESIGN.md §4 C05",
+    "text": "Every substitution returned by ematch_all and multi_ematch on generated e-graphs (symmetric and redundant classes included) is validated: all variables bound, the instantiated "
+            "pattern is represented without inserting, each multi-pattern equation holds; matching must leave the observable state untouched. Held on the matches explored.",
+    "note": "Trusted: EGraph::lookup as the membership test (itself monitored by C09).",
+}
+META["C04"] = {
+    "technique": "planted-instance monitor with run-time scope guards: known instances must fire within one apply_rewrites",
+    "design_ref": "DESIGN.md §4 C04",
+    "text": "Instances of random left patterns are planted (also only up to equality, and next to symmetric classes) and the single rule is applied once; the matching right-hand instance must then be "
+            "represented and equal. The two documented limitations (redundant slots, re-bound pattern slots) are excluded by guards evaluated on the real e-graph. Held on the plantings explored.",
+    "note": "Trusted: the construction of the planted substitution; completeness is judged after firing, not on the raw match list.",
+}
